@@ -28,3 +28,5 @@ def run(ctx):
     ctx.run_rule("X4", r_xof.rule_X4, std)
     ctx.run_rule("X5", r_xof.rule_X5, allc)
     ctx.run_rule("D2x", r_xof.rule_D2x, allc)
+    import r_asm
+    ctx.run_rule("A9", lambda c: r_asm.rule_A9(c, only="xof_many"))
